@@ -4,7 +4,7 @@ import os, json, shutil, re, sys
 id,k,target,rx,pkg=sys.argv[1:6]; extra=sys.argv[6] if len(sys.argv)>6 else ''
 rnd=int(os.environ.get('SEED_ROUND','2'))
 out=f'/tmp/vet/out/{id}{k}'
-k2={2:{'a':'c','b':'d'},3:{'a':'e','b':'f'},4:{'a':'g','b':'h'},5:{'a':'i','b':'j'},6:{'a':'k','b':'l'},7:{'a':'m','b':'n'},8:{'a':'o','b':'p'}}[rnd][k]
+k2={2:{'a':'c','b':'d'},3:{'a':'e','b':'f'},4:{'a':'g','b':'h'},5:{'a':'i','b':'j'},6:{'a':'k','b':'l'},7:{'a':'m','b':'n'},8:{'a':'o','b':'p'},9:{'a':'q','b':'r'}}[rnd][k]
 d=f'/verif/seeded/{id}{k2}'
 os.makedirs(d,exist_ok=True)
 shutil.copy(out+'/applied.diff', d+'/patch.diff')
